@@ -6,6 +6,7 @@ from rdkit.Chem import Descriptors
 
 import chem
 import pipeline
+import pp_layer
 from _rowmachine import deep_search, prepare
 
 MODULE = "SynRBLModel.Properties.C02"
@@ -109,6 +110,7 @@ def run(ctx):
             statement(ctx, mix)
         tr = pipeline.traced_run(MARKER_INPUTS, n_jobs=8)
         pipeline.compare_trace(ctx, tr)
+        pp_layer.corr_postprocess(ctx, pp_layer.cases_from_trace(mix) + pp_layer.cases_from_trace(tr))
         if tr["error"] or tr["out"] is None:
             ctx.corr_break("Pipeline:run-raised", {"n": len(MARKER_INPUTS)}, "model never raises", tr["error"])
         else:
